@@ -597,7 +597,7 @@ def replay(ctx, rec):
 MANIFEST = {
     "text": "Fault enumeration: for a handful of small base schedules (one of them really over-committed: two rows of tasks between two join points on every worker) every logical-request index x seven request-level faults, every third message index x {worker death, user "
     "cancellation}, every third store call and both track-preparation faults are injected (exhaustive for those schedules); generated schedules get sampled "
-    "points; a base schedule of rally's own operation types (cluster-health, refresh, force-merge, search, raw-request, delete-index behind their registered runners) gets a persistent status / timeout fault family (also on the HEAD existence check only), and race control's own metrics store fails while it takes over samples or calculates the results; a fifth of the request-level faults also run with --enable-driver-profiling; parameter-source faults rotate through ValueError / RuntimeError / NotImplementedError / KeyError and preparator faults also raise an exception whose instances cannot be unpickled (the kernel, like Thespian, drops a message it cannot decode). Each faulted race runs through rally's real CLI/actors on the simulated kernel and is checked for: failure (or cancellation) reaches race control, "
+    "points; a base schedule of rally's own operation types (cluster-health, refresh, force-merge, search, raw-request, delete-index behind their registered runners) gets a persistent status / timeout fault family (also on the HEAD existence check only), and race control's own metrics store fails while it takes over samples or calculates the results; a fifth of the request-level faults also run with --enable-driver-profiling; parameter-source faults rotate through ValueError / RuntimeError / NotImplementedError / KeyError and preparator faults also raise an exception whose instances cannot be unpickled (the kernel, like Thespian, drops a message it cannot decode) or leave the handler through SystemExit (the kernel then ends the actor's process). Each faulted race runs through rally's real CLI/actors on the simulated kernel and is checked for: failure (or cancellation) reaches race control, "
     "exit status ERROR/INTERRUPTED and never Success, no results in race.json, no summary printed, no stall and no livelock (a faulted race that is still busy after ten times the kernel events of its fault-free twin).",
     "note": "Single faults only; same actor/ES model as C01; process death modelled as ChildActorExited without handlers.",
     "technique": "runtime monitor: terminal-state checker over traces of simulated races with one injected fault (fault points enumerated from the fault-free run)",
